@@ -4,7 +4,7 @@
     order ([sp_laws]), every degree, every sorted knot list. *)
 From Coq Require Import List Arith Lia ZArith Bool Field Ring Setoid.
 Import ListNotations.
-From PGV Require Import BasisCoxDeBoor FindSpan CubicUniform Sums SplineModel.
+From PGV Require Import BasisCoxDeBoor CoxDeBoorGen FindSpan CubicUniform Sums SplineModel.
 
 (** the order is the one decided by [spleb] *)
 Definition sp_le {F : Type} (K : sp_ops F) (a b : F) : Prop := spleb K a b = true.
@@ -765,6 +765,136 @@ Proof.
   replace (forallb (fun row => (Z.to_nat s2 <? length row)%nat) coeffs) with true.
   - rewrite sp_tensor_loop_sum. reflexivity.
   - symmetry. apply forallb_forall. intros row Hr. apply Nat.ltb_lt. apply Hc2, Hr.
+Qed.
+
+(* ---------------------------------------------------------------------------------------- *)
+(** * the B-spline on the closed domain (right end point included) *)
+
+(** degree-0 functions: indicators of the half-open knot intervals; at the right end point
+    x = knots[hi] of the domain the value is taken from the left (last interval closed) *)
+Definition sp_ind (knots : list F) (hi : nat) (x : F) (i : nat) : F :=
+  if speqb K x (sp_kn F K knots hi) then (if (S i =? hi)%nat then 1 else 0)
+  else if inhalf F (sp_kn F K knots) x (spleb K) i then 1 else 0.
+
+(** the Cox - de Boor recursion above them *)
+Definition sp_Nc (knots : list F) (hi : nat) (x : F) (k i : nat) : F :=
+  Ng F 0 (spadd K) (spmul K) (spsub K) (spdiv K) (sp_kn F K knots) x (speqb K) (sp_ind knots hi x) k i.
+
+(** away from the right end point it is the Cox - de Boor recursion of BasisCoxDeBoor.v *)
+Theorem sp_Nc_eq_N knots hi x k i : x <> sp_kn F K knots hi -> sp_Nc knots hi x k i = sp_N knots x k i.
+Proof.
+  intros Hx. unfold sp_Nc, sp_N. rewrite N_is_Ng. apply Ng_ext. intros j. unfold sp_ind.
+  destruct (sp_eqb_spec x (sp_kn F K knots hi)); [contradiction|reflexivity].
+Qed.
+
+Lemma sp_ind_delta knots hi x s : sp_sorted knots -> sp_span_ok knots s ->
+  sp_kn F K knots s <= x -> x <= sp_kn F K knots (S s) -> (S s <= hi)%nat ->
+  (sp_kn F K knots (S s) <= x -> S s = hi) ->
+  forall i, sp_ind knots hi x i = delta F 0 1 s i.
+Proof.
+  intros Hs Hp H1 H2 Hhi Hr i. unfold sp_ind, delta.
+  destruct (sp_eqb_spec x (sp_kn F K knots hi)) as [E|E].
+  - assert (S s = hi). { apply Hr. rewrite E. apply sp_kn_mono; [exact Hs|exact Hhi]. }
+    destruct (Nat.eqb_spec (S i) hi), (Nat.eqb_spec i s); try reflexivity; lia.
+  - assert (Hopen : ~ sp_kn F K knots (S s) <= x).
+    { intros H. apply E. rewrite <- (Hr H). apply (spl_le_antisym K HK); assumption. }
+    unfold inhalf. destruct (Nat.eqb_spec i s) as [->|Hne].
+    + destruct (sp_leb_spec (sp_kn F K knots s) x); [|contradiction].
+      destruct (sp_leb_spec (sp_kn F K knots (S s)) x); [contradiction|reflexivity].
+    + destruct (Nat.lt_ge_cases i s) as [Hlt|Hge].
+      * destruct (sp_leb_spec (sp_kn F K knots (S i)) x) as [_|Hn].
+        -- rewrite andb_false_r. reflexivity.
+        -- exfalso. apply Hn. apply (spl_le_trans K HK) with (sp_kn F K knots s); [|exact H1].
+           apply sp_kn_mono; [exact Hs|lia].
+      * destruct (sp_leb_spec (sp_kn F K knots i) x) as [Hy|_]; [|reflexivity].
+        exfalso. apply Hopen. apply (spl_le_trans K HK) with (sp_kn F K knots i); [|exact Hy].
+        apply sp_kn_mono; [exact Hs|lia].
+Qed.
+
+(** A2.2 on the span that contains x (closed at the right only at the end of the domain) returns
+    the B-splines of the closed domain: for EVERY x of the closed span *)
+Theorem sp_A22_eq_closed knots degree hi x s : sp_sorted knots -> sp_span_ok knots s ->
+  sp_kn F K knots s <= x -> x <= sp_kn F K knots (S s) -> (S s <= hi)%nat ->
+  (sp_kn F K knots (S s) <= x -> S s = hi) -> (degree <= s)%nat ->
+  sp_A22 F K knots degree x s = map (fun q => sp_Nc knots hi x degree (s - degree + q)) (seq 0 (S degree)).
+Proof.
+  intros Hs Hp H1 H2 Hhi Hr Hd. unfold sp_A22.
+  rewrite (basis_eq_delta F 0 1 (spadd K) (spmul K) (spsub K) (spdiv K) (spopp K) (spinv K) (sp_le K) Fth
+             (spl_le_trans K HK) (spl_le_antisym K HK) (sp_kn F K knots) x (speqb K) sp_eqb_spec s
+             (sp_kn_mono knots Hs) Hp degree Hd).
+  apply map_ext. intros q. unfold sp_Nc. apply Ng_ext. intros i. symmetry.
+  apply sp_ind_delta; assumption.
+Qed.
+
+(** headline: everywhere in the closed domain [knots[p], knots[len-1-p]] - at every knot and at both
+    end points - nu_eval_spline_1d_scalar returns sum_j c_{s-p+j} N_{s-p+j,p}(x), the B-spline series
+    (all other B-splines vanish at x) *)
+Theorem sp_nu_eval_1d_closed knots degree coeffs x :
+  sp_sorted knots -> (2 * degree + 1 < length knots)%nat ->
+  sp_kn F K knots degree < sp_kn F K knots (S degree) ->
+  sp_kn F K knots (length knots - degree - 2) < sp_kn F K knots (length knots - 1 - degree) ->
+  sp_kn F K knots degree <= x -> x <= sp_kn F K knots (length knots - 1 - degree) ->
+  length coeffs = (length knots - degree - 1)%nat ->
+  exists s, sp_nu_find_span F K knots degree x = SpOk s /\
+    (degree <= s <= length knots - degree - 2)%nat /\
+    sp_nu_eval_1d_scalar F K x knots degree coeffs 0
+    = SpOk (sumr 0 (S degree) (fun j => nth (s - degree + j) coeffs 0
+              * sp_Nc knots (length knots - 1 - degree) x degree (s - degree + j))).
+Proof.
+  intros Hs Hlen Hfirst Hlast Hlo Hhi Hc.
+  destruct (sp_nu_find_span_domain knots degree x Hs Hlen Hfirst Hlast Hlo Hhi) as [s [E [Hr [Hp [Hx1 [Hx2 Hend]]]]]].
+  exists s. split; [exact E|]. split; [exact Hr|].
+  rewrite (sp_nu_eval_1d_scalar_spec knots degree coeffs x 0 s) by (try assumption; lia).
+  f_equal. apply Sums.sumr_ext. intros j Hj. cbn [sp_basis_of].
+  rewrite (sp_A22_eq_closed knots degree (length knots - 1 - degree) x s) by (try assumption; try lia; intros H; rewrite (Hend H); lia).
+  rewrite (sp_nth_map_seq (fun q => sp_Nc knots (length knots - 1 - degree) x degree (s - degree + q))) by lia.
+  reflexivity.
+Qed.
+
+(** the derivative routine: ders[j] = p*N_{i,p-1}/(t_{i+p}-t_i) - p*N_{i+1,p-1}/(t_{i+p+1}-t_{i+1}),
+    i = s-p+j, where the first term is absent for j = 0 and the second for j = p (these B-splines of
+    degree p-1 vanish on the span).  This is the standard derivative formula of a B-spline; that the
+    formula is d/dx is the classical identity, not proved here. *)
+Lemma sp_ders_loop_nth : forall rest saved j, (j <= length rest)%nat ->
+  nth j (sp_ders_loop F K rest saved) 0 = (match j with 0%nat => saved | S j' => nth j' rest 0 end) - nth j rest 0.
+Proof.
+  induction rest as [|sv r IH]; intros saved j Hj; cbn [sp_ders_loop].
+  - cbn in Hj. replace j with 0%nat by lia. cbn [nth]. ring.
+  - destruct j as [|j']; cbn [nth]; [reflexivity|]. rewrite IH by (cbn in Hj; lia).
+    destruct j'; reflexivity.
+Qed.
+
+Definition sp_der_T (knots : list F) (hi degree : nat) (x : F) (s j : nat) : F :=
+  sp_ofnat F K degree * sp_Nc knots hi x (degree - 1) (s - (degree - 1) + j) / sp_der_den F K knots degree s j.
+
+Theorem sp_ders_formula knots degree hi x s j : sp_sorted knots -> sp_span_ok knots s ->
+  sp_kn F K knots s <= x -> x <= sp_kn F K knots (S s) -> (S s <= hi)%nat ->
+  (sp_kn F K knots (S s) <= x -> S s = hi) -> (1 <= degree)%nat -> (degree <= S s)%nat -> (j <= degree)%nat ->
+  nth j (sp_ders_raw F K knots degree x s) 0
+  = (if (j =? 0)%nat then 0 else sp_der_T knots hi degree x s (j - 1))
+    - (if (j =? degree)%nat then 0 else sp_der_T knots hi degree x s j).
+Proof.
+  intros Hs Hp H1 H2 Hhi Hr Hd1 Hd Hj. unfold sp_ders_raw. cbv zeta.
+  rewrite (sp_A22_eq_closed knots (degree - 1) hi x s) by (try assumption; lia).
+  set (vals := map (fun q => sp_Nc knots hi x (degree - 1) (s - (degree - 1) + q)) (seq 0 (S (degree - 1)))).
+  assert (HT : forall q, (q < degree)%nat ->
+     nth q (map (sp_der_term F K knots degree s vals) (seq 0 degree)) 0 = sp_der_T knots hi degree x s q).
+  { intros q Hq. rewrite (sp_nth_map_seq (sp_der_term F K knots degree s vals)) by exact Hq.
+    unfold sp_der_term, sp_der_T, vals. cbn [Nat.add].
+    rewrite (sp_nth_map_seq (fun q0 => sp_Nc knots hi x (degree - 1) (s - (degree - 1) + q0))) by lia.
+    reflexivity. }
+  destruct degree as [|d]; [lia|]. cbn [seq map sp_ders_of_terms].
+  destruct j as [|j']; cbn [nth Nat.eqb].
+  - rewrite <- (HT 0%nat) by lia. cbn [seq map nth]. ring.
+  - rewrite sp_ders_loop_nth by (rewrite map_length, seq_length; lia).
+    assert (E1 : (match j' with 0%nat => sp_der_term F K knots (S d) s vals 0
+                  | S j'' => nth j'' (map (sp_der_term F K knots (S d) s vals) (seq 1 d)) 0 end)
+                 = sp_der_T knots hi (S d) x s j').
+    { rewrite <- (HT j') by lia. cbn [seq map]. destruct j'; reflexivity. }
+    rewrite E1. replace (S j' - 1)%nat with j' by lia. f_equal.
+    destruct (Nat.eqb_spec j' d) as [->|Hne].
+    + apply nth_overflow. rewrite map_length, seq_length. lia.
+    + rewrite <- (HT (S j')) by lia. cbn [seq map nth]. reflexivity.
 Qed.
 
 End Theory.
